@@ -61,6 +61,8 @@ fixed("F51", "C14", "0b515b8", "C14.keyword-space|kw|print_if_expr|If", "mimium-
 fixed("F52", "C14", "74fa295", "C14.list-items|items|print_grouped_list", "mimium-fmt printed `fn f(x:float, g = 2.0, h)` as `fn f(x, :float, g, =2.0, h)`: the shared list printer skipped the comma tokens and put its own separator after every child, also inside a typed parameter or a default value (a different, unparsable program); findings/repro/F52_*.mmm")
 for _p in ("C05", "C03"):
     fixed("F57", _p, "6fde856", "C05.cursor|resize-before-execute|execute_main", "`fn counter(x){ self + x }  let init = counter(5.0)  fn dsp(){ init }`: Machine::execute_main ran the global initialiser on the global state storage without sizing it (only execute_idx did), so the stateful call wrote through an unchecked pointer into an empty Vec: SIGSEGV on the VM while WASM answered 5.0 (findings/repro/F57_*.mmm); execute_main now grows the storage to main's layout first")
+for _p in ("C04", "C03"):
+    fixed("F61", _p, "8f445b5", "C04.rewrite-complete|identity-default|convert_recursively|ImcompleteRecord", "`fn f(a:float = 1.0, b:float = 2.0){ a + b }  fn dsp(){ let x = 3.0  f({a = (x + 1.0), ..}) }`: convert_recursively had no arm for Expr::ImcompleteRecord and its catch-all hands the node back unchanged, so no pronoun pass ever visited the fields: the BinOp survived convert_operators and recursecheck panicked (both back ends, a valid program); findings/repro/F61_incomplete_record_operator.mmm")
 for _p in ("C08", "C07"):
     fixed("F60", _p, "7021963", "C08.lcs|walk|diagonal-ignores-table", "old [A,B] -> new [A,B,X] with A=F(M1,S1), B=F(M1,D1), X=F(M1,M2): lcs_by_score walked back taking the diagonal whenever the pair scored > 0, pairing B with X and A with B; only 2 of the 6 surviving words were carried, into the wrong cells. 3124 of 136640 single-subtree insertions (and as many removals) over layouts of <= 5 nodes lost surviving words; 0 after the repair (findings/repro/F60_lcs_greedy_walk/)")
 fixed("F58", "C01", "cd5c593", "C01.prims|closure-state|reset", "`fn dsp(){ let k=1.0  let f = | |{self+k}  f() + mem(now) }`: the WASM host keys closure state by linear-memory address, fills it lazily and never removed an entry, and the bump allocator re-uses the addresses every tick: WASM 1,2,4,6,8 vs VM 1,1,2,3,4 (findings/repro/F58_closure_state_per_tick.mmm); a new import closure_state_reset is called where MakeClosure / Closure allocate")
@@ -151,7 +153,7 @@ add("F47", ["C11", "C01"], "C11.closure-lifetime|executor|generate_exec_closure_
 add("F55", ["C04"], "C04.assign-protocol|kind|RecordExpr", "`let r = {a = x = 1.0, b = 2.0}`: the record literal's lowering reads `a = x` and drops `= 1.0` without any diagnostic (x stays 0.0 on both back ends); findings/repro/F53_residual_record_field_assignment.mmm")
 
 # ---- error vectors dropped by the unifier (C03.error-drop) ----------------------------------------------------
-add("F56", ["C03"], "C03.error-drop|drop|compiler::typing::unification::unify_vec|errs", "element-wise tuple unification collects the element errors and answers Ok when the remaining relations are consistent: `fn f(a:float, b:(float)->float){ b(a) }  fn dsp(){ f(1.0, 2.0) }` passes the type checker; the VM panics `Invalid indirect callable`, WASM traps `indirect call type mismatch` (findings/repro/F56_tuple_unify_drops_errors.mmm; _b: a number passed for a tuple gives an invalid WASM module). Returning the errors makes 6 existing tests fail (fixtures rely on the leniency for records with defaults), so it is recorded, not repaired")
+add("F56", ["C03"], "C03.error-drop|drop|compiler::typing::unification::unify_vec|errs", "element-wise tuple unification collects the element errors and answers Ok when the remaining relations are consistent: `fn f(a:float, b:(float)->float){ b(a) }  fn dsp(){ f(1.0, 2.0) }` passes the type checker; the VM panics `Invalid indirect callable`, WASM traps `indirect call type mismatch` (findings/repro/F56_tuple_unify_drops_errors.mmm; _b: a number passed for a tuple gives an invalid WASM module). Returning the errors makes 6 existing tests fail: the suite pins the number of diagnostics of many_errors.mmm at 10, and the `str + 2.0` in that file is itself an instance of the defect (an 11th, correct, diagnostic appears); fixtures with default-valued record parameters rely on the leniency too. So it is recorded, not repaired")
 
 
 def main():
